@@ -96,7 +96,9 @@ def name_of(x: str) -> str:
     if not isinstance(x, str):
         raise NotConcreteError(f"expected concrete string but got: {x}")
 
-    return re.sub(r"\s+", "_", x)
+    # whitespace, and the characters that cannot appear in a (quoted) SMT-LIB symbol: `|`, `\` and NUL
+    # (z3 would print them in a form other solvers reject, and truncates the name at a NUL)
+    return re.sub(r"[\s|\\\x00]+", "_", x)
 
 
 def extract_string_array_argument(
